@@ -11,7 +11,7 @@ MAXFUN_MSG = "Objective has been called MAXFUN times"
 MAXRESTART_MSG = "Reached maximum number of unsuccessful restarts"
 SMALL_MSG = "Objective is sufficiently small"
 
-LEDGER_MODS = ['self.nf', 'self.nx', 'G.calls', 'G.pts', 'G.pending', 'G.nanflag', 'G.lastx', 'G.lastvals', 'G.lastk', 'G.offered']
+LEDGER_MODS = ['self.nf', 'self.nx', 'G.calls', 'G.pts', 'G.pending', 'G.nanflag', 'G.lastx', 'G.lastvals', 'G.lastk', 'G.offered', 'G.better', 'G.savedver']
 MODEL_GHOSTS = ['G.mver', 'G.gen', 'G.lastslot', 'G.nptver']
 
 
@@ -40,7 +40,7 @@ def build(repo):
                requires=['INV_ledger(self)', 'number_of_samples >= 1', 'not G.pending'],
                modifies=LEDGER_MODS, result=('evalvals', 'unk', 'int', 'optexit'),
                ghost_return=[('G.pending', 'result[2] > 0'), ('G.nanflag', None), ('G.lastx', 'x'), ('G.lastvals', 'result[0]'),
-                             ('G.lastk', 'result[2]'), ('G.offered', '0')],
+                             ('G.lastk', 'result[2]'), ('G.offered', '0'), ('G.better', 'False'), ('G.savedver', 'G.savedver')],
                loops={'for:i#0': ['!nodefault:: True',
                           'num_samples_run == i_',
                           'self.nf == old(self.nf) + i_',
@@ -53,6 +53,7 @@ def build(repo):
                         'nx:: self.nx == old(self.nx) + (1 if result[2] > 0 else 0)',
                         'INV_ledger(self)',
                         'pending:: G.pending == (result[2] > 0)',
+                        ('a fresh evaluation is not yet an accepted improvement:: not G.better and G.savedver == old(G.savedver)', 'C04'),
                         ('latest evaluation recorded:: G.lastx == x and G.lastvals == result[0] and G.lastk == result[2] and G.offered == 0', 'C03'),
                         'no exit => all samples:: implies(isnone(result[3]), result[2] == number_of_samples)',
                         'exit flags:: implies(not isnone(result[3]), result[3].flag == EXIT_MAXFUN_WARNING or result[3].flag == EXIT_SUCCESS)',
@@ -73,10 +74,15 @@ def build(repo):
                requires=[('an evaluated point is pending:: G.pending', 'C03'),
                          ('point is the one just evaluated (step + base == evaluated x):: ABS(G.gen, x) == G.lastx',) + T3,
                          ('residual is its first sample:: rvec == ROW(G.lastvals, 0)',) + T3,
-                         ('evaluation number is its point number:: eval_num == G.pts',) + T3],
+                         ('evaluation number is its point number:: eval_num == G.pts',) + T3,
+                         ('(C04 ii) the incumbent record is overwritten only by an accepted improvement (ratio > 0) or after it was offered to the saved-point slot; '
+                          'any other replacement targets a new slot or a slot other than kopt:: '
+                          'k >= NPT(G.nptver) or k != KOPT(G.mver) or G.better or G.savedver == G.mver', 'C04')],
                modifies=['G.pending', 'G.offered', 'G.mver', 'G.lastslot', 'G.nptver'],
                ghost_return=[('G.pending', 'False'), ('G.offered', '1'), ('G.mver', 'G.mver + 1'), ('G.lastslot', 'k'), ('G.nptver', 'G.nptver + 1')],
-               ensures=['not G.pending', 'G.offered == 1', 'G.mver == old(G.mver) + 1', 'G.lastslot == k', 'G.nptver == old(G.nptver) + 1'], assumed=True, notes=CONS_NOTE)
+               ensures=['not G.pending', 'G.offered == 1', 'G.mver == old(G.mver) + 1', 'G.lastslot == k', 'G.nptver == old(G.nptver) + 1',
+                        'A-M (growing counter + the assert "Growing: updating wrong point", proved in bundle model): npt() grows by at most the new slot:: '
+                        'NPT(G.nptver) <= max(old(NPT(G.nptver)), k + 1)'], assumed=True, notes=CONS_NOTE)
     D.contract('Model.add_new_point', tags=['C04', 'C03'], params={'x': 'val', 'rvec': 'val', 'eval_num': 'int'},
                requires=[('an evaluated point is pending:: G.pending', 'C03'),
                          ('point is the one just evaluated (step + base == evaluated x):: ABS(G.gen, x) == G.lastx',) + T3,
@@ -96,9 +102,12 @@ def build(repo):
                requires=[('saved entry is one whole ledger entry (the pending evaluation, averaged over all its samples, or the incumbent record):: '
                           '(G.pending and x_in_abs_coords and x == G.lastx and rvec == MEANV(G.lastvals, nsamples) and nsamples == G.lastk and eval_num == G.pts) or '
                           '(x_in_abs_coords and x == REC_X(G.mver) and rvec == REC_R(G.mver) and nsamples == REC_NS(G.mver) and eval_num == REC_EN(G.mver))',) + T3],
-               modifies=['G.pending', 'G.offered'],
-               ghost_return=[('G.pending', 'False'), ('G.offered', 'G.lastk')],
-               ensures=['not G.pending', 'G.offered == G.lastk'], assumed=True, notes=CONS_NOTE)
+               modifies=['G.pending', 'G.offered', 'G.savedver'],
+               ghost_return=[('G.pending', 'False'), ('G.offered', 'G.lastk'),
+                             ('G.savedver', 'ite(x == REC_X(G.mver) and rvec == REC_R(G.mver) and nsamples == REC_NS(G.mver) and eval_num == REC_EN(G.mver), G.mver, G.savedver)')],
+               ensures=['not G.pending', 'G.offered == G.lastk',
+                        'offering the incumbent record marks this model version as saved:: G.savedver == ite(x == REC_X(G.mver) and rvec == REC_R(G.mver) and '
+                        'nsamples == REC_NS(G.mver) and eval_num == REC_EN(G.mver), G.mver, old(G.savedver))'], assumed=True, notes=CONS_NOTE)
     D.contract('Model.get_final_results', tags=['C03', 'C11'], modifies=['G.ent', 'G.entjac'],
                result=('val', 'val', 'val', 'opt:val', 'int', 'int', 'opt:val'), assumed=True,
                ensures=['result[0] == EX(G.ent) and result[1] == ER(G.ent) and result[2] == EO(G.ent) and result[4] == ENS(G.ent) and result[5] == EEN(G.ent)',
@@ -127,7 +136,8 @@ def build(repo):
     D.contract('Controller.__init__', tags=['C02'], params={'nf': 'int', 'nx': 'int', 'maxfun': 'int'},
                modifies=['self.*', 'G.mver', 'G.gen', 'G.lastslot', 'G.proj', 'G.nptver'],
                ghost_return=[('G.mver', None), ('G.gen', None), ('G.lastslot', None), ('G.proj', None), ('G.nptver', None)],
-               ensures=['self.nf == nf', 'self.nx == nx', 'self.maxfun == maxfun', 'self.last_successful_run == 0'])
+               ensures=['self.nf == nf', 'self.nx == nx', 'self.maxfun == maxfun', 'self.last_successful_run == 0',
+                        'A-M (Model.__init__, proved in bundle model: a new model holds the single record x0, which is the incumbent):: NPT(G.nptver) == 1 and KOPT(G.mver) == 0'])
 
     # ---------------------------------------------------------------- Controller methods that may evaluate
     common_req = ['INV_ledger(self)', 'not G.pending', 'every stored point has all its samples:: G.offered == G.lastk']
@@ -151,20 +161,33 @@ def build(repo):
                    ensures=[sub(c, exit_expr, q) for c in common_ens] + list(extra_ens),
                    ledger_inv=common_inv, **kw)
 
-    method('Controller.geometry_step', 'optexit', 'result', params={'knew': 'int'})
-    method('Controller.check_and_fix_geometry', ('bool', 'optexit'), 'result[1]')
+    N1 = ('A-N1 (numeric): the point furthest from xopt, at a distance above a non-negative threshold, is not xopt itself:: knew != KOPT(G.mver)', 'C04')
+    N2 = ('A-N2 (numeric): np.argsort returns distinct slots and the incumbent (distance 0) sorts first; a point that became the incumbent during this loop '
+          'sits in a slot already visited:: knew != KOPT(G.mver)', 'C04')
+    method('Controller.geometry_step', 'optexit', 'result', params={'knew': 'int'},
+           extra_req=[('(C04 ii) a geometry step never replaces the incumbent record unless it was offered to the saved-point slot:: knew != KOPT(G.mver) or G.savedver == G.mver', 'C04')])
+    method('Controller.check_and_fix_geometry', ('bool', 'optexit'), 'result[1]', asserts={'before:Controller.geometry_step#1': [N1]})
     method('Controller.add_new_direction_while_growing', 'optexit', 'result')
+    FRESH = ('the model holds only x0 when initialisation starts:: NPT(G.nptver) == 1', 'C04')
+    grow = lambda c: ('(C04 ii) initialisation fills new slots only: the model holds at most this many records so far:: NPT(G.nptver) <= i_ + %d' % c, 'C04')
     method('Controller.initialise_coordinate_directions', 'optexit', 'result', extra_tags=['C14'],
-           extra_req=['parallel coordinate initialisation is rejected by solve (O8: expected dead):: not params("init.run_in_parallel")'],
+           extra_req=['parallel coordinate initialisation is rejected by solve (O8: expected dead):: not params("init.run_in_parallel")', FRESH],
+           loops={'for:k#0': [grow(1)], 'for:k#2': [grow(0)], 'for:k#3': [grow(0)]},
            dead=['return#3'])
     method('Controller.initialise_random_directions', 'optexit', 'result', extra_tags=['C14'],
-           extra_req=[('batched (parallel) initialisation is outside the ledger contract (D6/D23):: not params("init.run_in_parallel")', 'C03', 'C04')],
+           extra_req=[('batched (parallel) initialisation is outside the ledger contract (D6/D23):: not params("init.run_in_parallel")', 'C03', 'C04'), FRESH],
+           loops={'for:ndirns#1': [grow(1)], 'for:ndirns#2': [grow(1)]},
            dead=['return#1'])
-    method('Controller.move_furthest_points', 'optexit', 'result')
-    method('Controller.move_furthest_points_momentum', 'optexit', 'result')
+    method('Controller.move_furthest_points', 'optexit', 'result', asserts={'before:Controller.geometry_step#1': [N2]})
+    method('Controller.move_furthest_points_momentum', 'optexit', 'result', asserts={'before:Model.change_point#1': [N2]})
     method('Controller.soft_restart', 'optexit', 'result', params={'nruns_so_far': 'int', 'x_in_abs_coords_to_save': 'opt:val'},
            msg_asserts={MAXRESTART_MSG: [('(f) a success flag is attached only to a finite objective:: G.objfinite', 'C10')]},
-           asserts={'before:random_directions_within_bounds#1': [('random directions only under the documented option restarts.increase_npt:: params("restarts.increase_npt")', 'C19')]},
+           asserts={'before:random_directions_within_bounds#1': [('random directions only under the documented option restarts.increase_npt:: params("restarts.increase_npt")', 'C19')],
+                    'before:Controller.geometry_step#1': [
+                        ('A-N2 (numeric): np.argsort returns distinct slots with the incumbent (distance 0) first; it is skipped unless restarts.soft.move_xk, where it is the first '
+                         'slot moved; a point that became the incumbent during this loop sits in a slot already visited:: '
+                         '(i == 0 and params("restarts.soft.move_xk")) or knew != KOPT(G.mver)', 'C04')]},
+           loops={'for:i#0': [('(C04 ii) the incumbent record was offered to the saved-point slot before the first point is moved:: i_ > 0 or G.savedver == G.mver', 'C04')]},
            extra_req=['nruns_so_far >= 0', 'no caller passes an extra point to save:: isnone(x_in_abs_coords_to_save)'],
            extra_mod=['G.restarts', 'self.last_successful_run'],
            ghost_return=[('G.restarts', 'G.restarts + (1 if isnone(result) else 0)')],
@@ -174,9 +197,12 @@ def build(repo):
                       ('restart => budget left:: implies(isnone(result), old(self.nf) < self.maxfun)', 'C02')])
 
     # choose_point_to_replace / calculate_ratio: no ledger effect, but they return an optional exit
-    D.contract('Controller.choose_point_to_replace', tags=['C10'], modifies=[], result=('int', 'optexit'), assumed=False,
-               ensures=['implies(not isnone(result[1]), result[1].flag == EXIT_LINALG_ERROR)'])
-    D.contract('Controller.calculate_ratio', tags=['C10'], modifies=['self.diffs', 'self.last_successful_iter'], result=('unk', 'optexit'),
+    D.contract('Controller.choose_point_to_replace', tags=['C10', 'C04'], params={'skip_kopt': 'bool'}, modifies=[], result=('int', 'optexit'), assumed=False,
+               loops={'for:k#0': [('candidates exclude the incumbent slot when asked to:: isnone(knew) or not skip_kopt or knew != KOPT(G.mver)', 'C04')]},
+               ensures=['implies(not isnone(result[1]), result[1].flag == EXIT_LINALG_ERROR)',
+                        ('(C04 ii) with skip_kopt the slot chosen for replacement is never the incumbent:: '
+                         'implies(skip_kopt and isnone(result[1]), isnone(result[0]) or result[0] != KOPT(G.mver))', 'C04')])
+    D.contract('Controller.calculate_ratio', tags=['C10'], modifies=['self.diffs', 'self.last_successful_iter'], result=('val', 'optexit'),
                ensures=['implies(not isnone(result[1]), result[1].flag == EXIT_TR_INCREASE_WARNING or result[1].flag == EXIT_TR_INCREASE_ERROR)'])
 
     # ---------------------------------------------------------------- solve_main
@@ -189,7 +215,7 @@ def build(repo):
                          'fresh evaluation needs budget:: implies(isnone(r0_avg_old), nf_so_far < maxfun)',
                          'implies(params("init.run_in_parallel"), params("init.random_initial_directions"))'],
                modifies=['G.calls', 'G.pts', 'G.pending', 'G.nanflag', 'G.restarts', 'G.lastx', 'G.lastvals', 'G.lastk', 'G.offered', 'G.proj',
-                         'G.ent', 'G.entjac', 'G.rows'] + MODEL_GHOSTS + [
+                         'G.ent', 'G.entjac', 'G.rows', 'G.better', 'G.savedver'] + MODEL_GHOSTS + [
                          'params[growing.full_rank.use_full_rank_interp]', 'params[growing.perturb_trust_region_step]',
                          'params[growing.delta_scale_new_dirns]'],
                result=('val', 'val', 'val', 'opt:val', 'int', 'int', 'int', 'int', 'exit', 'unk', 'int', 'opt:val'),
@@ -222,6 +248,7 @@ def build(repo):
                    ('MAXFUN => nf == maxfun:: implies(exit_info.flag == EXIT_MAXFUN_WARNING, control.nf == control.maxfun)', 'C10'),
                ]},
                ghost_return=[('G.pending', 'False'), ('G.offered', 'G.lastk')],
+               ghost_after_assign={'ratio': [('G.better', 'POS(ratio)')]},
                ghost_return_at={'return#1': [('G.ent', 'newent(result[0], result[1], result[2], result[4], result[10])')]},
                ensures=[('returned (x, resid, obj, nsamples, eval number) is one whole entry:: result[0] == EX(G.ent) and result[1] == ER(G.ent) and '
                          'result[2] == EO(G.ent) and result[4] == ENS(G.ent) and result[10] == EEN(G.ent)', 'C03'),
@@ -350,8 +377,9 @@ def extra_obligations(repo, D, pid):
     out.append(Ob('Controller.initialise_coordinate_directions/frame[np.random only inside the projections branch]', 'frame',
                   'Controller.initialise_coordinate_directions', ['C19'], [], z3.BoolVal(ok), 0, 'unsat', {'syntactic': True}))
     # C02 frame: nf / nx are written, and the evaluation choke point is called, only where the ledger contracts say so
-    writers = {'nf': set(), 'nx': set()}
+    writers = {'nf': set(), 'nx': set(), 'kopt': set()}
     callers = set()
+    swap_callers = set()
     for qual, fi in repo.funcs.items():
         if fi.module == 'hessian':
             continue
@@ -371,6 +399,14 @@ def extra_obligations(repo, D, pid):
                     callers.add(qual)
                 if nm == 'objfun':
                     callers.add('objfun<-' + qual)
+                if nm == 'swap_points':
+                    swap_callers.add(qual)
+    # C04 (ii): the incumbent index moves only inside the Model methods whose effect on it is under contract (bundle model); swap_points is not used
+    extra = sorted(writers['kopt'] - {'Model.__init__', 'Model.change_point', 'Model.swap_points', 'Model.add_new_sample', 'Model.add_new_point'})
+    out.append(Ob('package/frame[only Model methods under contract write .kopt]', 'frame', 'package', ['C04', 'C17'], [], z3.BoolVal(not extra), 0, 'unsat',
+                  {'syntactic': True, 'why': ', '.join(extra)}))
+    out.append(Ob('package/frame[Model.swap_points has no caller (the ledger has no contract for it)]', 'frame', 'package', ['C04'], [], z3.BoolVal(not swap_callers), 0, 'unsat',
+                  {'syntactic': True, 'why': ', '.join(sorted(swap_callers))}))
     allowed_w = {'Controller.__init__', 'Controller.evaluate_objective', 'OptimResults.__init__'}
     for f in ('nf', 'nx'):
         extra = sorted(writers[f] - allowed_w)
